@@ -86,6 +86,9 @@ type c01Call struct {
 	ErrMsg  B      `json:"err_msg"`
 	OneWay  bool   `json:"oneway"`
 	Prior   bool   `json:"prior"` // the caller's out variables hold earlier values
+	// the implementation sets every out parameter to the zero value of its type (empty vectors, maps, strings): with
+	// Prior this is where content of a used out variable could survive (ResetDefault, ReadSliceInt8/Uint8)
+	EmptyOuts bool `json:"empty_outs,omitempty"`
 	// observations, filled in by the child
 	Sig    string   `json:"sig,omitempty"`    // Coq fsig
 	Args   string   `json:"args,omitempty"`   // Coq list val (all arguments as passed; out positions: the caller's prior value)
@@ -202,6 +205,12 @@ func c01Gen(tier string, rng *rand.Rand) []c01Case {
 		for k := 0; k < 3*per; k++ {
 			p := c01RandCall(rng, []string{"fBytes", "fItem", "fBig", "fVecInt", "fMapSS", "mixed", "many", "fString", "outsOnly", "fUBytes", "fMapItem"}[rng.Intn(11)])
 			p.Prior, p.ErrKind = true, 0
+			one(p)
+		}
+		// ... and the implementation empties every out parameter (byte vectors, vectors, maps, struct members)
+		for _, fn := range []string{"fBytes", "fUBytes", "fBig", "fItem", "mixed", "fVecInt", "fMapSS", "outsOnly"} {
+			p := c01RandCall(rng, fn)
+			p.Prior, p.ErrKind, p.EmptyOuts = true, 0, true
 			one(p)
 		}
 		// one-way calls
